@@ -10,7 +10,7 @@ theorem setF_other {α} (f : Nat → α) {i j : Nat} (v : α) (h : j ≠ i) : se
 /-- the session an operation belongs to (none = persistent operation) -/
 def sessionOf : Op → Option Sid
   | .pIns _ _ => none | .pDel _ _ => none
-  | .sIns k _ _ => some k | .sRet k _ _ => some k | .sRule k => some k | .qScan k _ => some k | .qCount k => some k
+  | .sIns k _ _ => some k | .sRet k _ _ => some k | .sRule k => some k | .sClear k => some k | .qScan k _ => some k | .qCount k => some k
 
 /-- a step of a session operation never changes the persistent relations nor another session -/
 theorem step_session_confined {st st' : State} {t : Tid} {op : Op} {rest : List Op} {k : Sid}
@@ -30,6 +30,10 @@ theorem step_session_confined {st st' : State} {t : Tid} {op : Op} {rest : List 
     simp only [step, htn, htodo, if_false] at hs
     split at hs <;> cases hs <;> refine ⟨rfl, ?_⟩ <;> intro j hj <;> simp [setF_other _ _ hj]
   | sRule k' =>
+    simp only [sessionOf, Option.some.injEq] at hk; subst hk
+    simp only [step, htn, htodo, if_false] at hs
+    cases hs; refine ⟨rfl, ?_⟩; intro j hj; simp [setF_other _ _ hj]
+  | sClear k' =>
     simp only [sessionOf, Option.some.injEq] at hk; subst hk
     simp only [step, htn, htodo, if_false] at hs
     cases hs; refine ⟨rfl, ?_⟩; intro j hj; simp [setF_other _ _ hj]
@@ -288,6 +292,13 @@ theorem step_nodup {st st' : State} {t : Tid} (h : NodupInv st) (hs : step st t 
       intro k' r'
       by_cases hk : k' = k
       · subst hk; simp only [setF_same]; exact h.sess k' r'
+      · simp only [setF_other _ _ hk]; exact h.sess k' r'
+    | sClear k =>
+      simp only [step, htn, htodo, if_false] at hs; cases hs
+      refine ⟨h.pers, ?_⟩
+      intro k' r'
+      by_cases hk : k' = k
+      · subst hk; simp only [setF_same]; simp
       · simp only [setF_other _ _ hk]; exact h.sess k' r'
     | qScan k r =>
       cases hpc : (st.threads t).pc <;> simp only [step, htn, htodo, hpc, if_false] at hs <;>
